@@ -1,10 +1,10 @@
 INIT Init
 NEXT Next
-CONSTANT Thorough = FALSE
+CONSTANT Thorough = TRUE
 INVARIANT T_RegionContainsPixel
 INVARIANT T_RegionInside
 INVARIANT T_ArmBound
 INVARIANT T_MaskedHasNoArm
 INVARIANT T_CountIsRegion
 INVARIANT T_TableAgrees
-CHECK_DEADLOCK FALSE
+CHECK_DEADLOCK TRUE
